@@ -10,8 +10,8 @@ from ..checklib import Check, MachineryError
 SHAPES = ["seq", "nest", "dict", "call"]
 # (TStride of the model-checking run, TStride / Stride / keep_every of the emission) per tier
 SIZES = {
-    "quick": {"seq": (16, 40, 4, 1), "nest": (4, 10, 3, 3), "dict": (16, 60, 3, 2), "call": (8, 10, 3, 2)},
-    "thorough": {"seq": (1, 4, 2, 1), "nest": (1, 2, 1, 1), "dict": (1, 8, 2, 1), "call": (1, 2, 1, 1)},
+    "quick": {"seq": (16, 40, 4, 1), "nest": (4, 10, 3, 3), "dict": (16, 60, 3, 2), "call": (8, 10, 3, 2), "inner": (8, 12, 3, 4)},
+    "thorough": {"seq": (1, 4, 2, 1), "nest": (1, 2, 1, 1), "dict": (1, 8, 2, 1), "call": (1, 2, 1, 1), "inner": (1, 4, 2, 2)},
 }
 INVS = {"C02": ["C02"], "C10": ["C10"], "C11": ["C11"], "C05": ["C05"], "C08": ["C08"], "C09": ["C09"],
         "C18": ["C02", "C10"]}
@@ -58,7 +58,10 @@ def assign_check(pid: str, shapes=SHAPES, level="model_checking", case_filter=No
 
 def sig_of(m, case):
     d = m["detail"] if isinstance(m["detail"], dict) else {}
+    det = m["detail"]
+    err = det[0] if isinstance(det, list) and det else None
     return {"clause": m["clause"], "A": m["A"], "term_kind": case["tm"]["t"], "value_kind": case["v"]["t"],
+            "error": err, "overlap": bool(isinstance(det, list) and len(det) > 1 and "Replacement(" in str(det[1])),
             "positional": bool(d.get("positional")) if "positional" in d else None,
             "exp": d.get("exp") if m["clause"] == "cats" else None, "got": d.get("got") if m["clause"] == "cats" else None}
 
